@@ -1063,7 +1063,15 @@ def gen_slv_acc(rng, tier):
             for j in range(len(t) - ncells, len(t)):
                 t[j] = fnum(-float(t[j]))
             extra.append(" ".join(t))
-    return out + extra
+    # variants (tens digit of the table token): per-species tolerances, sub-microsecond time scales, an inert species with
+    # absolute tolerance zero - each derived from every seventh case above
+    variants = []
+    for i, l in enumerate(out):
+        if i % 7 in (1, 2, 5):
+            t = l.split()
+            t[6] = str(int(t[6]) + 10 * {1: 1, 2: 2, 5: 3}[i % 7])
+            variants.append(" ".join(t))
+    return out + extra + variants
 
 
 # spmap L reorder <mech>: vmap = (name, position in the species listing), in listing order
